@@ -113,6 +113,15 @@ func childModes() error {
 			return err
 		}
 		_ = c0.Close()
+		// and the temporary files a Save that died half-way would have left next to them
+		for _, f := range []string{
+			filepath.Join(mb, beaconID, key.FolderName, "drand_id.private"), filepath.Join(mb, beaconID, key.FolderName, "drand_id.public"),
+			filepath.Join(mb, beaconID, key.GroupFolderName, "dist_key.private"), filepath.Join(mb, beaconID, key.GroupFolderName, "drand_group.toml"),
+		} {
+			if err := os.WriteFile(f+".tmp", []byte("Thr"), 0o666); err != nil {
+				return err
+			}
+		}
 		err = filepath.WalkDir(base, func(p string, d fs.DirEntry, err error) error {
 			if err == nil && !d.IsDir() {
 				return os.Chmod(p, prior)
